@@ -1,0 +1,251 @@
+//go:build verif
+
+package redisemu
+
+import (
+	"fmt"
+	"sync"
+	"time"
+)
+
+// SimResetGlobals resets the package-level client registry, id counter and
+// statistics so that consecutive simulated runs in one process start equal.
+func SimResetGlobals() {
+	clientsMu.Lock()
+	clients = map[int64]*clientState{}
+	clientId = 0
+	clientsMu.Unlock()
+	infoMu.Lock()
+	info = redisStats{run_id: info.run_id}
+	infoMu.Unlock()
+	signals = 0
+}
+
+// SimClientCount reports the size of the package-level client registry.
+func SimClientCount() int {
+	clientsMu.Lock()
+	defer clientsMu.Unlock()
+	return len(clients)
+}
+
+// SimDbMutex returns the mutex of database index of eng (nil if absent), so a
+// simulator can relate its lock-owner table to databases.
+func SimDbMutex(eng *RedisEmu, index int) *sync.Mutex {
+	if eng == nil || eng.dss == nil {
+		return nil
+	}
+	ds := eng.dss.dbs[index]
+	if ds == nil {
+		return nil
+	}
+	return &ds.mu
+}
+
+// SimStats is a read-only structural summary used for reach counters.
+type SimStats struct {
+	Keys            int
+	ExpiredStored   int // keys whose deadline has passed but whose object is still in the table
+	MaxBuckets      int // largest bucket array among the keyspaces, hashes and sets
+	Waiters         int // wake signals linked in wait tables
+	MaxWaitersOnKey int
+}
+
+// SimCheckInvariants walks every database of eng that is not skipped and
+// verifies structural invariants of the keyspace, of every list, hash and set,
+// and of the wait table. It must only be called while no emulator goroutine is
+// running. held reports databases whose mutex is currently owned by a parked
+// command; those are skipped because their structures may be mid-update.
+func SimCheckInvariants(eng *RedisEmu, held func(mu *sync.Mutex) bool) (st SimStats, err error) {
+	if eng == nil || eng.dss == nil {
+		return
+	}
+	now := time.Now()
+	for index, ds := range eng.dss.dbs {
+		if held != nil && held(&ds.mu) {
+			continue
+		}
+		if e := checkDict(ds.data, fmt.Sprintf("db%d keyspace", index)); e != nil {
+			return st, e
+		}
+		if len(ds.data.buckets) > st.MaxBuckets {
+			st.MaxBuckets = len(ds.data.buckets)
+		}
+		for _, item := range ds.data.buckets {
+			if item == nil {
+				continue
+			}
+			st.Keys++
+			sk, ok := item.value.(*storeKey)
+			if !ok || sk == nil {
+				return st, fmt.Errorf("db%d key %q: value is %T, not a store key", index, item.key, item.value)
+			}
+			if now.After(sk.expiresAt) {
+				st.ExpiredStored++
+			}
+			where := fmt.Sprintf("db%d key %q", index, item.key)
+			switch sk.flags {
+			case FLAG_KEY_TYPE_STRING:
+				if _, ok := sk.payload.([]byte); !ok {
+					return st, fmt.Errorf("%s: string key holds %T", where, sk.payload)
+				}
+			case FLAG_KEY_TYPE_LIST:
+				sl, ok := sk.payload.(*storeList)
+				if !ok || sl == nil {
+					return st, fmt.Errorf("%s: list key holds %T", where, sk.payload)
+				}
+				if e := checkList(sl, where); e != nil {
+					return st, e
+				}
+			case FLAG_KEY_TYPE_HASH_TABLE, FLAG_KEY_TYPE_SET:
+				d, ok := sk.payload.(*redisDict)
+				if !ok || d == nil {
+					return st, fmt.Errorf("%s: hash/set key holds %T", where, sk.payload)
+				}
+				if e := checkDict(d, where); e != nil {
+					return st, e
+				}
+				if d.count == 0 {
+					return st, fmt.Errorf("%s: empty hash/set is stored", where)
+				}
+				if len(d.buckets) > st.MaxBuckets {
+					st.MaxBuckets = len(d.buckets)
+				}
+				for _, it := range d.buckets {
+					if it == nil {
+						continue
+					}
+					if sk.flags == FLAG_KEY_TYPE_HASH_TABLE {
+						if _, ok := it.value.(string); !ok {
+							return st, fmt.Errorf("%s field %q: value is %T", where, it.key, it.value)
+						}
+					}
+				}
+			default:
+				return st, fmt.Errorf("%s: type flags %d are not exactly one type", where, sk.flags)
+			}
+		}
+		w, m, e := checkWaitTable(ds.waitingClients, fmt.Sprintf("db%d wait table", index))
+		if e != nil {
+			return st, e
+		}
+		st.Waiters += w
+		if m > st.MaxWaitersOnKey {
+			st.MaxWaitersOnKey = m
+		}
+	}
+	return
+}
+
+func checkDict(d *redisDict, where string) error {
+	n := len(d.buckets)
+	if n < 16 || n&(n-1) != 0 {
+		return fmt.Errorf("%s: bucket count %d is not a power of two >= 16", where, n)
+	}
+	occupied := 0
+	for i, it := range d.buckets {
+		if it == nil {
+			continue
+		}
+		occupied++
+		if it.fullHash != d.hash(it.key) {
+			return fmt.Errorf("%s: item %q carries a stale hash", where, it.key)
+		}
+		if want := d.hashToIndex(it.fullHash, uint32(n)); want != uint32(i) {
+			return fmt.Errorf("%s: item %q sits in bucket %d, its hash selects %d", where, it.key, i, want)
+		}
+	}
+	if occupied != d.count {
+		return fmt.Errorf("%s: count=%d but %d buckets are occupied", where, d.count, occupied)
+	}
+	return nil
+}
+
+func checkList(sl *storeList, where string) error {
+	if sl.count == 0 {
+		return fmt.Errorf("%s: empty list is stored", where)
+	}
+	if sl.head == nil || sl.tail == nil {
+		return fmt.Errorf("%s: count=%d but head/tail nil", where, sl.count)
+	}
+	if sl.head.prev != nil || sl.tail.next != nil {
+		return fmt.Errorf("%s: head.prev or tail.next not nil", where)
+	}
+	n := 0
+	var prev *listItem
+	for p := sl.head; p != nil; p = p.next {
+		if p.prev != prev {
+			return fmt.Errorf("%s: node %d prev link does not match", where, n)
+		}
+		prev = p
+		n++
+		if n > sl.count+1 {
+			break
+		}
+	}
+	if n != sl.count {
+		return fmt.Errorf("%s: count=%d but %d nodes reachable from head", where, sl.count, n)
+	}
+	if prev != sl.tail {
+		return fmt.Errorf("%s: last node reachable from head is not tail", where)
+	}
+	return nil
+}
+
+func checkWaitTable(wt *waitTable, where string) (waiters int, maxOnKey int, err error) {
+	seen := map[*wakeSignal]bool{}
+	for name, owl := range wt.table {
+		if owl.name != name {
+			return 0, 0, fmt.Errorf("%s: list filed under %q is named %q", where, name, owl.name)
+		}
+		if owl.queueHead == nil {
+			return 0, 0, fmt.Errorf("%s: empty wait list %q is kept in the table", where, name)
+		}
+		n := 0
+		var prev *signalListTuple
+		for ref := owl.queueHead; ref != nil; ref = ref.queueNext {
+			if ref.queuePrev != prev {
+				return 0, 0, fmt.Errorf("%s: queue %q back link broken", where, name)
+			}
+			if ref.waitList != owl {
+				return 0, 0, fmt.Errorf("%s: tuple in queue %q points at another list", where, name)
+			}
+			if ref.signal == nil {
+				return 0, 0, fmt.Errorf("%s: tuple in queue %q has no signal", where, name)
+			}
+			// the tuple must be reachable from its signal's object list
+			found := false
+			for o := ref.signal.objectsHead; o != nil; o = o.objectsNext {
+				if o == ref {
+					found = true
+					break
+				}
+			}
+			if !found {
+				return 0, 0, fmt.Errorf("%s: tuple in queue %q is not linked from its signal", where, name)
+			}
+			seen[ref.signal] = true
+			prev = ref
+			n++
+			if n > 1<<16 {
+				return 0, 0, fmt.Errorf("%s: queue %q is cyclic", where, name)
+			}
+		}
+		if prev != owl.queueTail {
+			return 0, 0, fmt.Errorf("%s: queue %q tail does not match", where, name)
+		}
+		if n > maxOnKey {
+			maxOnKey = n
+		}
+	}
+	for ws := range seen {
+		for o := ws.objectsHead; o != nil; o = o.objectsNext {
+			if o.signal != ws {
+				return 0, 0, fmt.Errorf("%s: signal %d object tuple points at another signal", where, ws.id)
+			}
+			if wt.table[o.waitList.name] != o.waitList {
+				return 0, 0, fmt.Errorf("%s: signal %d waits on a list that is not in the table", where, ws.id)
+			}
+		}
+	}
+	return len(seen), maxOnKey, nil
+}
